@@ -493,6 +493,26 @@ theorem compatible_nodup (cfg : Cfg) (ver : List Nat) (interp : Option Str) (pla
 
 /-! #### generic_tags: no repeats -/
 
+/-! #### the hypotheses of the no-repeat theorems are needed (known finding `c15_colliding_inputs`)
+
+Inputs without repeats that collide with a tag the functions add themselves do produce repeats: the full statement
+"no tag is repeated when the inputs have no repeats" is false of model and implementation at these witnesses. -/
+
+/-- `compatible_tags((3, 9), interpreter="py39", platforms=["x"])` repeats `py39-none-any` -/
+theorem compatible_repeats_interp_in_py_range :
+    ¬ (compatibleTags ⟨[3, 12], sCpython, .none, .none, .none, .none, .none, false, false, true, .none, []⟩
+        (some [3, 9]) (some [112, 121, 51, 57]) (some [[120]])).Nodup := by decide
+
+/-- `compatible_tags((3, 1), interpreter="x", platforms=["any"])` repeats every `pyXY-none-any` -/
+theorem compatible_repeats_platform_any :
+    ¬ (compatibleTags ⟨[3, 12], sCpython, .none, .none, .none, .none, .none, false, false, true, .none, []⟩
+        (some [3, 1]) (some [120]) (some [sAny])).Nodup := by decide
+
+/-- `cpython_tags((3, 9), abis=["ABI3"], platforms=["x"])` repeats `cp39-abi3-x` -/
+theorem cpython_repeats_abi3_other_case :
+    ¬ (cpythonTags ⟨[3, 12], sCpython, .none, .none, .none, .none, .none, false, false, true, .none, []⟩
+        (some [3, 9]) (some [[65, 66, 73, 51]]) (some [[120]])).Nodup := by decide
+
 theorem generic_nodup (cfg : Cfg) (interp : Str) (abis plats : List Str) (hi : interp ≠ [])
     (ha : (abis.map lowerStr).Nodup) (hpl : (plats.map lowerStr).Nodup)
     (hcn : ∀ a ∈ abis, lowerStr a = sNone → a = sNone) :
